@@ -31,7 +31,7 @@ REGISTRATION = {
             "contains no literal `[img-`. Variant bits (F4, legacy loop, deleteNode) are probed on the tree under test.",
 }
 
-MODULES = ["OllamaVerif.Properties.C19"]
+MODULES = ["OllamaVerif.Properties.C19", "OllamaVerif.Tie.C19"]
 THEOREMS = [
     "OllamaVerif.C19.latest_kept",
     "OllamaVerif.C19.retained_is_suffix_in_order",
@@ -58,6 +58,12 @@ THEOREMS = [
     "OllamaVerif.Prompt.legacy_join_nothing_lost",
     "OllamaVerif.C19.legacy_join_nothing_lost_tLegacy",
     "OllamaVerif.C19.join_step_conservative",
+    "OllamaVerif.C19.inplace_renders_all",
+    "OllamaVerif.C19.prompt_contains_system_and_retained_inplace",
+    "OllamaVerif.Tie.C19.legacy_tree_is_parsed",
+    "OllamaVerif.Tie.C19.inPlace_tree_is_parsed",
+    "OllamaVerif.Tie.C19.header_tree_is_parsed",
+    "OllamaVerif.Tie.C19.default_tree_touch_up",
 ]
 OVERLAY = {"server/zz_verif_c19_test.go": "server/zz_verif_c19_test.go",
            "server/zz_verif_c19tmpl_test.go": "server/zz_verif_c19tmpl_test.go",
@@ -65,7 +71,26 @@ OVERLAY = {"server/zz_verif_c19_test.go": "server/zz_verif_c19_test.go",
 OVERLAY_RUNNER = {"runner/ollamarunner/zz_verif_c19_test.go": "runner_ollamarunner/zz_verif_c19_test.go"}
 
 
+def regenerate(ctx):
+    """Tie 1: the parse trees the real template.Parse builds for the harness templates, as Lean terms."""
+    rc, out, outdir = ctx.go_test("./server/", OVERLAY, "^TestVerifC19Trees$")
+    defs = []
+    if rc == 0:
+        for line in open(os.path.join(outdir, "trees.txt")):
+            name, _, term = line.rstrip("\n").partition(" := ")
+            defs.append(f"def {name} : List Node := {term}\n")
+    body = ("-- REGENERATED on every run by vlib/checks/c19.py from the tree under test. Do not edit.\n"
+            "import OllamaVerif.Model.Prompt\n"
+            "namespace OllamaVerif.Generated.C19\n"
+            "open OllamaVerif.Prompt\n"
+            "/-! parse trees of the harness templates as built by the real template.Parse -/\n"
+            + "".join(defs) +
+            "end OllamaVerif.Generated.C19\n")
+    core.write_generated("OllamaVerif/Generated/C19_Trees.lean", body)
+
+
 def run(ctx):
+    regenerate(ctx)
     ctx.lean_check(MODULES, THEOREMS)
     env = {"VERIF_N": ctx.scale(6000, 150000), "VERIF_CORPUS": os.path.join(core.ROOT, "corpus", "C19"),
            "VERIF_PAIRS": ctx.scale(4000, 40000)}
